@@ -486,6 +486,15 @@ theorem C20_load_tagged (table : String → Option Cal) (j : JVal) :
       | some s => exact Or.inr ⟨_, rfl, load_curve table v s h⟩
     · exact Or.inl rfl
 
+/-- The per-type entry points (`NamedCal::from_json`, `Cal::from_json`, `UnionCal::from_json`, `FXRates::from_json`,
+`serde_json::from_str::<Dual>` …) reach the same derived `Deserialize` as the tagged entry point does through its
+variant: a document `body` read as type `tag` is the tagged loader on `{tag: body}` — an error or a value whose
+shape invariants hold, for every JSON tree, with no abort path. -/
+theorem C20_load_typed (table : String → Option Cal) (tag : String) (body : JVal) :
+    loadTagged table (.obj [(tag, body)]) = .err ∨
+      ∃ l, loadTagged table (.obj [(tag, body)]) = .ok l ∧ ShapeOK table l :=
+  C20_load_tagged table _
+
 end Loading
 
 /-! ### Non-vacuity: concrete documents and calls (these are tests of the model, labelled as such).
